@@ -199,8 +199,9 @@ def notify(R, prog):
     # ScopedLockHead locks indirectly: take the lock, then re-validate the head pointer
     G = K.build(R, prog, 'photon::indirect_lock', sig='volatile')
     res = an.run(G, [an.LockTracker(), an.GuardTracker(lambda k: True)])
+    ppt = K.param(G.root, 0)
     K.check_at(R, P + '.K6', G, res, lambda ev: ev.kind == 'return' and ev.depth == 0 and ev.f.const(ev.e['sub']) is None,
-               require=lambda st, ev: an.has_lock(st, 'x->lock') and any(re.match(r'^G:x == \*ppt=T$', k) for k in st),
+               require=lambda st, ev: an.has_lock(st, ev.show(ev.e['sub']) + '->lock') and ('G:%s == *%s=T' % (ev.show(ev.e['sub']), ppt)) in st,
                key_fn=lambda ev: P + '.K6:photon::indirect_lock:revalidate-after-lock',
                describe=lambda ev: 'head returned only locked and re-validated (x == *ppt after x->lock.lock())', min_sites=1, what='return x')
 
@@ -208,8 +209,11 @@ def notify(R, prog):
 def indirect_null(R, prog):
     G = K.build(R, prog, 'photon::indirect_lock', sig='volatile')
     res = an.run(G, [an.LockTracker(), an.GuardTracker(lambda k: True)])
+    ppt, end = K.param(G.root, 0), K.param(G.root, 1)
+    heads = K.locals_defined_only_by(G.root, r'^\*%s$' % re.escape(ppt))       # local snapshots of the head pointer
+    R.require(len(heads) >= 1, 'C03: indirect_lock no longer snapshots *%s' % ppt)
     K.check_at(R, P + '.K6', G, res, lambda ev: ev.kind == 'return' and ev.depth == 0 and ev.f.const(ev.e['sub']) == 0,
-               require=lambda st, ev: ('G:x=F' in st or 'G:x == end=T' in st) and not an.has_lock(st, 'x->lock'),
+               require=lambda st, ev: any((('G:%s=F' % x) in st or ('G:%s == %s=T' % (x, end)) in st) and not an.has_lock(st, x + '->lock') for x in heads),
                key_fn=lambda ev: P + '.K6:photon::indirect_lock:null-only-if-queue-empty',
                describe=lambda ev: 'nullptr ("nobody to wake") is returned only when the head pointer read was null/end, never after a failed re-validation',
                min_sites=1, what='return nullptr')
